@@ -1,8 +1,8 @@
 (** C17 — completed evaluations leave a balanced context; run starts fresh.
     Statements only; proofs in proofs/Balanced.v (one lemma per combinator and per
-    operator, the whole evaluator by induction on fuel) and proofs/ApiBalanced.v. *)
+    operator, the whole evaluator by induction on fuel), proofs/ApiBalanced.v and proofs/KwProofs.v. *)
 From WalModel Require Import Api.
-From WalModel.proofs Require Import Balanced ApiBalanced.
+From WalModel.proofs Require Import Balanced ApiBalanced KwProofs.
 Local Open Scope Z_scope.
 
 (** T-bal: whatever an evaluation nests - calls, let, macros, captured scopes and groups,
@@ -49,3 +49,39 @@ Print Assumptions reset_is_initial.
 
 Example top_nonvacuous : at_top empty_state.
 Proof. split; reflexivity. Qed.
+
+(** a keyword binding of Wal.eval whose name is a global already: the evaluation proper starts in the state where the
+    name holds the given value, and whatever it does, the name holds its old value again afterwards *)
+Theorem keyword_binding_shadows_and_is_restored : forall fl e n v st r st' fid old,
+  lookup_frame st global_id n = Some fid -> env_read global_id n st = Ok old st ->
+  wal_eval_with fl e [(n, v)] st = Ok r st' ->
+  exists st_b st_r,
+    env_write global_id n v st = Ok tt st_b /\ env_read global_id n st_b = Ok v st_b /\
+    kw_body fl e st_b = Ok r st_r /\
+    env_write global_id n old st_r = Ok tt st' /\ env_read global_id n st' = Ok old st'.
+Proof. exact kw_shadowing. Qed.
+Print Assumptions keyword_binding_shadows_and_is_restored.
+
+(** a fresh name: appended to the global frame for the evaluation proper and removed afterwards.
+    PARTIAL: that no second binding of the name is left needs the keys of the global frame to be distinct after the
+    evaluation proper (an invariant of define, which refuses a bound name, not proved for the whole evaluator) *)
+Theorem keyword_binding_of_a_fresh_name_is_removed : forall fl e n v st r st',
+  lookup_frame st global_id n = None -> wal_eval_with fl e [(n, v)] st = Ok r st' ->
+  exists st_b st_r, gbinds st_b = (gbinds st ++ [(n, v)])%list /\ kw_body fl e st_b = Ok r st_r /\
+    gbinds st' = adel n (gbinds st_r) /\ (NoDup (map fst (gbinds st_r)) -> alookup n (gbinds st') = None).
+Proof. exact kw_fresh_gone. Qed.
+Print Assumptions keyword_binding_of_a_fresh_name_is_removed.
+
+Theorem the_evaluation_proper_is : forall fl e, kw_body fl e = if ast_truthy e then run_form fl e else ret VNone.
+Proof. reflexivity. Qed.
+Print Assumptions the_evaluation_proper_is.
+
+Example keyword_binding_examples :
+  (exists st',
+    wal_eval (WL [VOp OAdd; VSym "z" None; VInt 1]) [("z", VInt 41)] empty_state = Ok (VInt 42) st' /\
+    lookup_frame empty_state global_id "z" = None /\ lookup_frame st' global_id "z" = None) /\
+  (exists st',
+    wal_eval (VSym "CS" None) [("CS", VStr "top")] empty_state = Ok (VStr "top") st' /\
+    env_read global_id "CS" empty_state = Ok (VStr "") empty_state /\ env_read global_id "CS" st' = Ok (VStr "") st').
+Proof. exact (conj kw_demo kw_demo_shadow). Qed.
+Print Assumptions keyword_binding_examples.
